@@ -20,7 +20,7 @@ def bufs():
     global BUFS
     if BUFS is None:
         BUFS = dict(PE=yv.blob("PE32_FILE"), ELF=yv.blob("ELF32_FILE"), TXT1=TXT1, TXT0=b"nothing here!", EMPTY=b"", MANY=b"q" * 12, MANY2=b"w" * 14 + b" " + b"v" * 12,
-                    CHAIN=b"ab....yy ab", FIB=b"f" + b"a" * 10 + b" g" + b"a" * 12, FIB2=b"g" + b"a" * 12, FIBOK=b"zz faz gb zz")
+                    CHAIN=b"ab....yy ab", FIB=b"f" + b"a" * 10 + b" g" + b"a" * 12, FIB2=b"g" + b"a" * 12, FIBOK=b"zz faz gb zz", REP1=b"ab1", REP2=b"ab12345cd ef1\nxx", REP3=b"ab1\n2cd ef12gh")
     return BUFS
 
 
@@ -39,6 +39,7 @@ rule qr { strings: $r = /v[vx]/ condition: $r }
 rule re { strings: $r = /ab+c/ condition: $r }
 rule chain { strings: $h = { 61 62 [4-] 79 79 } condition: $h }
 rule fib { strings: $f = /f([a-c]{1,3}\\.?){1,4}z/ condition: $f }
+rule rep { strings: $r = /ab.{2,6}cd/ $l = /ef.{2,6}?gh/ $h = { 61 62 [2-6] (63|43) 64 } condition: any of them }
 rule fib2 { strings: $g = /ga*a*a*a*a*b/ condition: $g }
 rule ispe { condition: pe.number_of_sections > 0 }
 rule peep { condition: defined pe.entry_point }
@@ -58,7 +59,7 @@ def scan_cmd(buf, extra=""):
 def build_ops(w):
     """alphabet of operations; outcome positions are derived from the normal traces of this very tree"""
     ops = []
-    for b in ("PE", "ELF", "TXT1", "TXT0", "EMPTY", "MANY", "MANY2", "CHAIN", "FIB", "FIB2", "FIBOK"):
+    for b in ("PE", "ELF", "TXT1", "TXT0", "EMPTY", "MANY", "MANY2", "CHAIN", "FIB", "FIB2", "FIBOK", "REP1", "REP2", "REP3"):
         ops.append(("scan:%s:normal" % b, scan_cmd(b)))
     w.batch(["reset"]); compile_rules(w)
     w.cmd("scanner 0 0")
